@@ -128,6 +128,89 @@ def validate(cases, report, name):
     return verdicts
 
 
+def pipeline_traces(report, tier):
+    """Binding of the composed pipeline model (spec/Jasm.tla): every (rule document, listing) of MC_Jasm's universe is
+    run as ONE real operation whose stage events (harness/stagetrace.py) TLC explains step by step with the actions
+    of Jasm.tla (Trace_Jasm).  Drift of these implementation-shaped models is reported, never alarmed."""
+    rules, listings = stage_universe()
+    # quick: every document on a fixed eighth of the listings (offset by the document index); thorough: all pairs
+    stride = 8 if tier == "quick" else 1
+    pairs = [[ri, li] for ri in range(len(rules)) for li in range(len(listings)) if (li + ri) % stride == 0]
+    obs = matchpipe.drive({"rules": rules, "listings": listings, "pairs": pairs, "stages": True}, tag="stages")
+    gone = [o for o in obs if o["outcome"] == "unavailable"]
+    if gone:
+        report.cov["pipeline_model"] = {"traces": 0, "drift": f"stage boundaries not found in the code: {gone[0]['why']}"}
+        report.notes.append("pipeline model (Jasm.tla): the stage boundaries the tracer wraps do not exist any more -- drift, not a violation")
+        return
+    cases = [{"d": o["r"] + 1, "l": o["l"] + 1, "events": o["events"]} for o in obs]
+    final = validate_stage_traces(cases, report)
+    summarize_pipeline(report, cases, final, len(rules) * len(listings))
+
+
+def stage_universe():
+    """Rule documents and listings of MC_Jasm's universe (exported by TLC), as worker job entries."""
+    out = os.path.join(scratch(), "ujasm.json")
+    ex = tlc.run("Export_Jasm", cfg="Export_Jasm.cfg", env={"JASM_OUT": out}, workers=1)
+    tlc.cleanup(ex)
+    with open(out) as f:
+        U = json.load(f)
+    os.unlink(out)
+    rules = []
+    for d in U["docs"]:
+        doc = {}
+        cfg = {}
+        if d["cfgmfm"] != "-":
+            cfg["mnemonics-full-match"] = d["cfgmfm"] == "T"
+        if d["cfgofm"] != "-":
+            cfg["operands-full-match"] = d["cfgofm"] == "T"
+        if cfg:
+            doc["config"] = cfg
+        if d["macros"]:
+            doc["macros"] = [macro_native(m) for m in d["macros"]]
+        doc["pattern"] = native(d["pattern"])
+        rules.append({"id": len(rules), "yaml": dump(doc)})
+    listings = [{"id": n, "text": "\n".join(t) + "\n"} for n, t in enumerate(U["texts"])]
+    return rules, listings
+
+
+def validate_stage_traces(cases, report, name="Trace_Jasm"):
+    path = os.path.join(scratch(), "jasm.traces.json")
+    with open(path, "w") as f:
+        json.dump({"cases": cases}, f)
+    tv = tlc.run("Trace_Jasm", cfg="Trace_Jasm.cfg", env={"JASM_CASES": path}, dump=True, heap="16g")
+    report.add_tlc(tv, name)
+    final = {}
+    for st in tlc.read_dump(tv["dump"], skip='/\\ verdict = "run"'):
+        if st["verdict"] != "run":
+            final[st["tid"]] = (st["verdict"], st["l"])
+    tlc.cleanup(tv)
+    os.unlink(path)
+    return final
+
+
+def summarize_pipeline(report, cases, final, universe):
+    rejected = {}
+    for tid, (v, l) in sorted(final.items()):
+        if not v.startswith("ok"):
+            rejected.setdefault(v, []).append({"doc": cases[tid - 1]["d"], "listing": cases[tid - 1]["l"], "event": l})
+    steps = sum(len(c["events"]) for c in cases)
+    kinds = {}
+    for c in cases:
+        for e in c["events"]:
+            kinds[e["ev"]] = kinds.get(e["ev"], 0) + 1
+    report.cov["pipeline_model"] = {
+        "traces": len(cases), "of_universe": universe, "verdicts": len(final), "events": steps, "events_by_stage": kinds,
+        "explained_completely": sum(1 for v, _ in final.values() if v.startswith("ok")),
+        "outcomes": {k: sum(1 for v, _ in final.values() if v == k) for k in ("ok:found", "ok:notfound", "ok:error")},
+        "drift": {k: {"traces": len(v), "first": v[0]} for k, v in rejected.items()},
+        "note": "one trace = one real first-match operation; every stage event is explained by the action of spec/Jasm.tla of "
+                "the same name with the logged tree / regex text / stream / result bound to the primed variables",
+    }
+    if rejected:
+        report.notes.append(f"pipeline model (Jasm.tla): {sum(len(v) for v in rejected.values())} traces not explained "
+                            f"({', '.join(sorted(rejected))}) -- drift of the model, not a violation")
+
+
 def run(prop, tier):
     report = Report(prop, tier)
     # design level: the expansion algorithm as implemented (JasmMacroPass) against the property-level
@@ -192,6 +275,8 @@ def run(prop, tier):
     for n in range(0, len(docs), max(1, len(docs) // 4)):
         report.sample({"macro_rule": comp[n][2]["yaml"], "extra_macro_files": comp[n][2].get("macros", []),
                        "inlined_by_spec": comp[n][3]["yaml"], "outcome": comp[n][0]["outcome"], "tlc_verdict": verdicts[n]})
+    if prop == "C13":
+        pipeline_traces(report, tier)
     report.assumptions += ["equal compiled matcher text of two outputs of the same compiler is taken as 'same matcher'; "
                            "different text is compared behaviourally on all listings up to length 2 (quick) / 3 (thorough)"]
     return report.finish()
